@@ -61,9 +61,22 @@ impl crate::crypto::open::control::Secret for RecordingOpener {}
 /// (That `authenticate` hands the *whole* header to the MAC is shown separately with `RecordingOpener`.)
 struct ChecksumKey {
     key: [u8; TAG_LEN],
+    // recorded by sign(): how often it was called and with which slices
+    sign_calls: Cell<u32>,
+    signed_header: Cell<(*const u8, usize)>,
+    signed_tag: Cell<(*const u8, usize)>,
 }
 
 impl ChecksumKey {
+    fn new() -> Self {
+        Self {
+            key: kani::any(),
+            sign_calls: Cell::new(0),
+            signed_header: Cell::new((core::ptr::null(), 0)),
+            signed_tag: Cell::new((core::ptr::null(), 0)),
+        }
+    }
+
     fn compute(&self, header: &[u8]) -> u128 {
         let mut t = self.key;
         t[0] ^= header.len() as u8;
@@ -80,6 +93,9 @@ impl crate::crypto::seal::Control for ChecksumKey {
     }
 
     fn sign(&self, header: &[u8], tag: &mut [u8]) {
+        self.sign_calls.set(self.sign_calls.get() + 1);
+        self.signed_header.set((header.as_ptr(), header.len()));
+        self.signed_tag.set((tag.as_ptr(), tag.len()));
         let t = self.compute(header).to_be_bytes();
         tag.copy_from_slice(&t);
     }
